@@ -44,48 +44,85 @@ func timeAddConst(v ssa.Value, recv func(ssa.Value) bool) (int64, bool) {
 func c09Tick(e *Env) {
 	r := e.R
 	r.Rule("C09.tick", "AGR+VF", "tick arithmetic and invocation guard", 5)
-	run := e.Fn(dschedRel, "(*Scheduler).run")
-	start := e.Fn(dschedRel, "(*Scheduler).start")
-	next := e.Fn(dschedRel, "(*Scheduler).nextTick")
-	if run == nil || start == nil || next == nil {
+	// by role: the tick body is the function of the daemon that asks the entry
+	// reader for the entries; the daemon loop is its caller; the logical time is
+	// the tick body's time parameter
+	var run *ssa.Function
+	sp0 := e.P.Pkg(dschedRel)
+	isRead := func(c *ssa.CallCommon) bool {
+		return c.IsInvoke() && c.Method.Name() == "Read" && strings.HasSuffix(ir.NamedType(c.Value.Type()), "scheduler.entryReader")
+	}
+	nRun := 0
+	for _, f := range e.RepoFuncsSorted() {
+		if sp0 != nil && rootFn(f).Package() == sp0 && f.Parent() == nil && len(ir.CallsIn(f, isRead)) > 0 {
+			run = f
+			nRun++
+		}
+	}
+	if run == nil || nRun != 1 {
+		r.Unknown("the daemon's tick body (the function reading the entries)", dschedRel, sprintf("%d functions call entryReader.Read", nRun))
 		return
 	}
-	nowP := ssa.Value(run.Params[1])
+	var nowP ssa.Value
+	for _, p := range run.Params {
+		if ir.NamedType(p.Type()) == "time.Time" {
+			nowP = p
+		}
+	}
+	if nowP == nil {
+		r.Unknown("tick body: logical time parameter", e.Pos(run.Pos()), "no time.Time parameter")
+		return
+	}
 	isNow := func(v ssa.Value) bool { return ir.Resolve(v) == nowP }
 	// (a) Read(now + c)
 	n := 0
-	for _, ci := range ir.CallsIn(run, func(c *ssa.CallCommon) bool { return c.IsInvoke() && c.Method.Name() == "Read" }) {
+	for _, ci := range ir.CallsIn(run, isRead) {
 		n++
 		c, ok := timeAddConst(ci.Common().Args[0], isNow)
 		r.Check(ok && c < 0 && c >= -60_000_000_000, "run: entries read at tick + c with -60s ≤ c < 0", e.InstrPos(ci),
 			sprintf("the entry reader is asked for Next(tick%+dns): with c ≥ 0 the tick's own minute is never returned, with c < -60s earlier minutes are replayed", c))
 	}
-	if n == 0 {
-		r.Unknown("run: entry reader call", e.Pos(run.Pos()), "not found")
-	}
-	// (b) invocation guard
+	// (b) invocation guard: the Invoke call of the tick body, of a goroutine it
+	// starts or of a helper, judged at the statement of the tick body that leads to it
 	var invoke ssa.Instruction
-	for _, f := range ir.WithClosures(run) {
-		for _, ci := range ir.CallsIn(f, func(c *ssa.CallCommon) bool { return strings.HasSuffix(ir.CalleeName(c), "entry).Invoke") }) {
-			invoke = ci
-			site := ssa.Instruction(ci)
-			if f != run {
-				for _, b := range run.Blocks {
-					for _, in := range b.Instrs {
-						if g, isG := in.(*ssa.Go); isG && g.Call.StaticCallee() == f {
-							site = g
-						}
-						if mc, isMC := in.(*ssa.MakeClosure); isMC && mc.Fn == f && site == ssa.Instruction(ci) {
-							site = mc
+	isInvoke := func(c *ssa.CallCommon) bool { return strings.HasSuffix(ir.CalleeName(c), "entry).Invoke") }
+	type isite struct{ call, site ssa.Instruction }
+	var isites []isite
+	for _, b := range run.Blocks {
+		for _, in := range b.Instrs {
+			switch x := in.(type) {
+			case *ssa.MakeClosure:
+				for _, h := range ir.WithClosures(x.Fn.(*ssa.Function)) {
+					for _, ci := range ir.CallsIn(h, isInvoke) {
+						isites = append(isites, isite{ci, in})
+					}
+				}
+			case ssa.CallInstruction:
+				if isInvoke(x.Common()) {
+					isites = append(isites, isite{in, in})
+				} else if g := x.Common().StaticCallee(); g != nil && g.Parent() == nil && e.P.Funcs[g] && rootFn(g).Package() == sp0 {
+					for _, h := range e.withPkgHelpers(g) {
+						for _, ci := range ir.CallsIn(h, isInvoke) {
+							isites = append(isites, isite{ci, in})
 						}
 					}
 				}
 			}
+		}
+	}
+	for _, is := range isites {
+		{
+			invoke = is.call
+			site := is.site
 			lits := e.DCS(site)
 			ok := false
 			for _, l := range lits {
 				if l.Kind == "val" && !l.Pol {
 					if c, isC := ir.Resolve(l.V).(*ssa.Call); isC && ir.IsCallTo(&c.Call, "(time.Time).After") && e.IsFieldRead(c.Call.Args[0], nil, "Next") && isNow(c.Call.Args[1]) {
+						ok = true
+					}
+					// the same test written from the tick's side: !tick.Before(entry.Next)
+					if c, isC := ir.Resolve(l.V).(*ssa.Call); isC && ir.IsCallTo(&c.Call, "(time.Time).Before") && isNow(c.Call.Args[0]) && e.IsFieldRead(c.Call.Args[1], nil, "Next") {
 						ok = true
 					}
 				}
@@ -114,10 +151,11 @@ func c09Tick(e *Env) {
 				}
 				if breaks {
 					sorted := false
-					for _, sc := range ir.CallsIn(run, func(c *ssa.CallCommon) bool { return ir.IsCallTo(c, "sort.SliceStable", "sort.Slice") }) {
-						if !ir.Precedes(sc, l.Header.Instrs[0]) && sc.Block() != l.Header {
-							// must be before the loop
-						}
+					var sorts []ssa.CallInstruction
+					for _, h := range e.withPkgHelpers(run) {
+						sorts = append(sorts, ir.CallsIn(h, func(c *ssa.CallCommon) bool { return ir.IsCallTo(c, "sort.SliceStable", "sort.Slice") })...)
+					}
+					for _, sc := range sorts {
 						if mc, isMC := sc.Common().Args[1].(*ssa.MakeClosure); isMC {
 							less := mc.Fn.(*ssa.Function)
 							for _, b := range less.Blocks {
@@ -141,54 +179,85 @@ func c09Tick(e *Env) {
 	if invoke == nil {
 		r.Unknown("run: Invoke site", e.Pos(run.Pos()), "not found")
 	}
-	// (c) start(): run(t); t = nextTick(t)
+	// (c) the daemon loop: run(t); t = next(t), t carried round the loop
 	var tick *ssa.Phi
-	for _, ci := range ir.CallsIn(start, func(c *ssa.CallCommon) bool { return c.StaticCallee() == run }) {
-		if ph, ok := ir.Resolve(ci.Common().Args[1]).(*ssa.Phi); ok {
-			tick = ph
+	var start *ssa.Function
+	timeIdx := -1
+	for i, p := range run.Params {
+		if ssa.Value(p) == nowP {
+			timeIdx = i
 		}
 	}
+	for _, ci := range e.StaticCallSites(run) {
+		if ph, ok := ir.Resolve(ci.Common().Args[timeIdx]).(*ssa.Phi); ok {
+			tick, start = ph, ci.Parent()
+		}
+	}
+	const minute = 60_000_000_000
+	// v is prev + 1 minute truncated to the minute
+	nextExpr := func(v, prev ssa.Value) bool {
+		c, isC := ir.Resolve(v).(*ssa.Call)
+		if !isC || !ir.IsCallTo(&c.Call, "(time.Time).Truncate") {
+			return false
+		}
+		k, _ := ir.ConstInt(c.Call.Args[1])
+		add, okA := timeAddConst(c.Call.Args[0], func(x ssa.Value) bool { return ir.Resolve(x) == ir.Resolve(prev) })
+		return okA && add == minute && k == minute
+	}
 	if tick == nil {
-		r.Bad("start: run(t) with the loop-carried logical tick", e.Pos(start.Pos()), "the daemon does not run ticks from a loop-carried logical time")
+		r.Bad("start: run(t) with the loop-carried logical tick", e.Pos(run.Pos()), "the daemon does not run ticks from a loop-carried logical time")
 	} else {
-		okNext, okInit := false, false
-		for k, ed := range tick.Edges {
+		okNext, okInit, okNT, sawNT := false, false, false, false
+		for _, ed := range tick.Edges {
 			c, isC := ir.Resolve(ed).(*ssa.Call)
 			if !isC {
 				continue
 			}
-			if c.Call.StaticCallee() == next {
-				okNext = ir.Resolve(c.Call.Args[1]) == ssa.Value(tick)
-				if !okNext {
-					r.Bad("start: next tick computed from the previous tick", e.InstrPos(c),
-						"the next tick is computed from "+e.C.Render(c.Call.Args[1])+" instead of the previous logical tick: after a late tick every minute boundary crossed in between is skipped (scheduled minutes missed)")
+			if g := c.Call.StaticCallee(); g != nil && e.P.Funcs[g] && g.Blocks != nil {
+				// a helper computing the next tick from one of its parameters
+				for k, p := range g.Params {
+					if ir.NamedType(p.Type()) != "time.Time" {
+						continue
+					}
+					sawNT = true
+					all := true
+					nr := 0
+					for _, b := range g.Blocks {
+						if rt, isR := b.Instrs[len(b.Instrs)-1].(*ssa.Return); isR {
+							nr++
+							if !nextExpr(RetVals(rt, 0)[0], p) {
+								all = false
+							}
+						}
+					}
+					okNT = all && nr > 0
+					okNext = ir.Resolve(c.Call.Args[k]) == ssa.Value(tick)
+					if !okNext {
+						r.Bad("start: next tick computed from the previous tick", e.InstrPos(c),
+							"the next tick is computed from "+e.C.Render(c.Call.Args[k])+" instead of the previous logical tick: after a late tick every minute boundary crossed in between is skipped (scheduled minutes missed)")
+					}
+					r.Check(okNT, "nextTick: previous + 1 minute, truncated to the minute", e.Pos(g.Pos()), "ticks do not advance minute by minute")
 				}
 			} else if ir.IsCallTo(&c.Call, "(time.Time).Truncate") {
-				if k2, ok := ir.ConstInt(c.Call.Args[1]); ok && k2 == 60_000_000_000 {
-					okInit = true
+				if nextExpr(c, tick) {
+					// the next tick computed in place from the previous one
+					sawNT, okNT, okNext = true, true, true
+					r.OK("nextTick: previous + 1 minute, truncated to the minute", e.InstrPos(c), "")
+				} else if k2, ok := ir.ConstInt(c.Call.Args[1]); ok && k2 == minute {
+					if _, isAdd := timeAddConst(c.Call.Args[0], func(ssa.Value) bool { return true }); !isAdd {
+						okInit = true
+					}
 				}
 			}
-			_ = k
 		}
 		if okNext {
 			r.OK("start: next tick computed from the previous tick", e.Pos(start.Pos()), "")
 		}
+		if !sawNT {
+			r.Bad("nextTick: previous + 1 minute, truncated to the minute", e.Pos(start.Pos()), "the daemon loop does not advance its logical tick by a recognisable computation")
+		}
 		r.Check(okInit, "start: first tick = now() truncated to the minute", e.Pos(start.Pos()), "the first logical tick is not minute-aligned")
 	}
-	// nextTick = now.Add(1m).Truncate(1m)
-	okNT := false
-	for _, b := range next.Blocks {
-		for _, in := range b.Instrs {
-			if rt, isR := in.(*ssa.Return); isR {
-				if c, isC := ir.Resolve(RetVals(rt, 0)[0]).(*ssa.Call); isC && ir.IsCallTo(&c.Call, "(time.Time).Truncate") {
-					k, _ := ir.ConstInt(c.Call.Args[1])
-					add, okA := timeAddConst(c.Call.Args[0], func(v ssa.Value) bool { return ir.Resolve(v) == ssa.Value(next.Params[1]) })
-					okNT = okA && add == 60_000_000_000 && k == 60_000_000_000
-				}
-			}
-		}
-	}
-	r.Check(okNT, "nextTick: previous + 1 minute, truncated to the minute", e.Pos(next.Pos()), "ticks do not advance minute by minute")
 	// (d) cron parser granularity
 	sp := e.P.Pkg(dagRel)
 	okCron, found := false, false
@@ -340,76 +409,131 @@ func c09SuspendKey(e *Env) {
 func c09BadFile(e *Env) {
 	r := e.R
 	r.Rule("C09.bad-file-isolation", "DCS+MPT", "a file that fails to load does not stop the others; the watcher's lock is released", 3)
-	isLoadErr := func(i *ssa.If, idx int) bool {
+	sp := e.P.Pkg(dschedRel)
+	inPkg := func(f *ssa.Function) bool { return f != nil && sp != nil && f.Blocks != nil && rootFn(f).Package() == sp }
+	isMetaLoad := func(f *ssa.Function) bool {
+		return len(ir.CallsIn(f, func(c *ssa.CallCommon) bool { return strings.HasSuffix(ir.CalleeName(c), "internal/dag.LoadMetadata") })) > 0
+	}
+	// the loader: dag.LoadMetadata itself, or a helper of the daemon that hands its result on
+	loads := func(c *ssa.CallCommon) bool {
+		if strings.HasSuffix(ir.CalleeName(c), "internal/dag.LoadMetadata") {
+			return true
+		}
+		g := c.StaticCallee()
+		return inPkg(g) && g.Signature.Results().Len() >= 2 && e.ReachesRepo(g, isMetaLoad)
+	}
+	isLoadErr := func(i *ssa.If, idx int) (bool, bool) {
 		l := ir.Normalize(ir.Lit{Cond: i.Cond, Pol: idx == 0})
-		if l.Kind != "cmp" || l.Op != token.NEQ || !ir.IsNilConst(l.Y) {
-			return false
+		if l.Kind != "cmp" || (l.Op != token.NEQ && l.Op != token.EQL) || !ir.IsNilConst(l.Y) {
+			return false, false
 		}
 		ex, ok := ir.Resolve(l.X).(*ssa.Extract)
 		if !ok {
-			return false
+			return false, false
 		}
 		c, ok := ex.Tuple.(*ssa.Call)
-		return ok && strings.HasSuffix(ir.CalleeName(&c.Call), "internal/dag.LoadMetadata")
+		if !ok || !loads(&c.Call) || ex.Index != c.Call.Signature().Results().Len()-1 {
+			return false, false
+		}
+		return true, l.Op == token.NEQ
 	}
-	for _, name := range []string{"(*entryReaderImpl).initDags", "(*entryReaderImpl).watchDags"} {
-		fn := e.Fn(dschedRel, name)
-		if fn == nil {
+	// continues: from block `from` of fn, control always comes back to the head of
+	// the enclosing loop - that of fn, or (when fn is a helper called from one place)
+	// that of its caller
+	var continues func(fn *ssa.Function, fromBlock *ssa.BasicBlock, fromInstr ssa.Instruction, depth int) (bool, bool)
+	continues = func(fn *ssa.Function, fromBlock *ssa.BasicBlock, fromInstr ssa.Instruction, depth int) (ok, inLoop bool) {
+		loops := ir.Loops(fn)
+		at := fromBlock
+		if at == nil {
+			at = fromInstr.Block()
+		}
+		l := ir.InnermostLoop(loops, at)
+		if l != nil {
+			bad, _ := ir.Bypass(fromInstr, fromBlock, ir.PathQuery{
+				Stop: func(in ssa.Instruction) bool { return in == l.Header.Instrs[0] },
+				Bad: func(in ssa.Instruction) bool {
+					if ir.IsReturn(in) {
+						return true
+					}
+					return !l.Blocks[in.Block()]
+				}})
+			return bad == nil, true
+		}
+		us := ir.UniqueSite(fn)
+		if us == nil || depth > 3 {
+			return false, false
+		}
+		// inside the helper nothing but returning happens (no exit of the process)
+		bad, _ := ir.Bypass(fromInstr, fromBlock, ir.PathQuery{
+			Stop: ir.IsReturn,
+			Bad: func(in ssa.Instruction) bool {
+				c, isC := in.(*ssa.Call)
+				if _, isP := in.(*ssa.Panic); isP {
+					return true
+				}
+				return isC && (ir.IsCallTo(&c.Call, "os.Exit") || strings.HasSuffix(ir.CalleeName(&c.Call), ".Fatal") || strings.HasSuffix(ir.CalleeName(&c.Call), ".Fatalf"))
+			}})
+		if bad != nil {
+			return false, true
+		}
+		return continues(us.Parent(), nil, us, depth+1)
+	}
+	n := 0
+	var fns []*ssa.Function
+	for _, fn := range e.RepoFuncsSorted() {
+		if !inPkg(fn) {
 			continue
 		}
-		loops := ir.Loops(fn)
-		n := 0
 		for _, b := range fn.Blocks {
 			i, ok := b.Instrs[len(b.Instrs)-1].(*ssa.If)
 			if !ok {
 				continue
 			}
 			for idx := 0; idx < 2; idx++ {
-				if !isLoadErr(i, idx) {
+				is, errEdge := isLoadErr(i, idx)
+				if !is || !errEdge {
 					continue
 				}
 				n++
-				l := ir.InnermostLoop(loops, b)
-				if l == nil {
+				fns = append(fns, fn)
+				okC, inLoop := continues(fn, b.Succs[idx], nil, 0)
+				if !inLoop {
 					r.Bad(shortName(fn)+": files are loaded inside a loop", e.InstrPos(i), "the loader is not called per file in a loop")
 					continue
 				}
-				bad, _ := ir.Bypass(nil, b.Succs[idx], ir.PathQuery{
-					Stop: func(in ssa.Instruction) bool { return in == l.Header.Instrs[0] },
-					Bad: func(in ssa.Instruction) bool {
-						if ir.IsReturn(in) {
-							return true
-						}
-						return !l.Blocks[in.Block()]
-					}})
-				r.Check(bad == nil, shortName(fn)+": a load error continues with the next file / event", e.InstrPos(i),
+				r.Check(okC, shortName(fn)+": a load error continues with the next file / event", e.InstrPos(i),
 					"a malformed or unloadable file ends the directory scan / the watcher: the other DAGs are not (or no longer) scheduled")
 			}
 		}
-		if n == 0 {
-			r.Unknown(shortName(fn)+": LoadMetadata error test", e.Pos(fn.Pos()), "not found")
-		}
 	}
-	// watcher: Lock ... Unlock on every way round the loop
-	wd := e.FnQuiet(dschedRel, "(*entryReaderImpl).watchDags")
-	if wd != nil {
-		for _, ci := range ir.CallsIn(wd, func(c *ssa.CallCommon) bool { return ir.IsCallTo(c, "(*sync.Mutex).Lock") }) {
+	if n < 2 {
+		r.Unknown("daemon: the load-error tests of the directory scan and of the watcher", dschedRel, sprintf("%d found", n))
+	}
+	// a lock taken by the functions that load files is released on every way to a
+	// return and on every way round their loop
+	seen := map[*ssa.Function]bool{}
+	for _, wd := range fns {
+		if seen[wd] {
+			continue
+		}
+		seen[wd] = true
+		for _, ci := range ir.CallsIn(wd, func(c *ssa.CallCommon) bool { return ir.IsCallTo(c, "(*sync.Mutex).Lock", "(*sync.RWMutex).Lock") }) {
 			loops := ir.Loops(wd)
 			l := ir.InnermostLoop(loops, ci.Block())
 			bad, _ := ir.Bypass(ci, nil, ir.PathQuery{
 				Stop: func(in ssa.Instruction) bool {
 					c, ok := in.(*ssa.Call)
-					return ok && ir.IsCallTo(&c.Call, "(*sync.Mutex).Unlock")
+					return ok && ir.IsCallTo(&c.Call, "(*sync.Mutex).Unlock", "(*sync.RWMutex).Unlock")
 				},
-				DeferStop: func(d *ssa.Defer) bool { return ir.IsCallTo(&d.Call, "(*sync.Mutex).Unlock") },
+				DeferStop: func(d *ssa.Defer) bool { return ir.IsCallTo(&d.Call, "(*sync.Mutex).Unlock", "(*sync.RWMutex).Unlock") },
 				Bad: func(in ssa.Instruction) bool {
 					if ir.IsReturn(in) {
 						return true
 					}
 					return l != nil && in == l.Header.Instrs[0]
 				}})
-			r.Check(bad == nil, "watchDags: the DAG map lock is released on every path round the loop", e.InstrPos(ci),
-				"some path (e.g. a load error or an ignored event) keeps the lock: the next tick's Read blocks forever and nothing is scheduled any more")
+			r.Check(bad == nil, shortName(wd)+": the lock is released on every path round the loop / to a return", e.InstrPos(ci),
+				"a path leaves the critical section without unlocking: the next event (or the next Read by the tick) blocks forever")
 		}
 	}
 }
